@@ -216,6 +216,15 @@ func (propC01) Gen(seed uint64, tier string, idx int) any {
 		p.Prior = &op
 	}
 	genSecond(r, p, true)
+	if tier == "thorough" && idx%25000 == 77 {
+		// more than 2^20 pixels: backward references at the very edge of the LZ77
+		// window (the generator repeats the first row at the end of such pictures)
+		p.Img = ImgSpec{Family: "pal", Colors: 256, W: r.Range(4300, 4700), H: r.Range(226, 244), Seed: r.Next(), Alpha: "opaque", Type: "nrgba"}
+		p.Opt = GenLosslessOpts(r, 0)
+		p.Opt.Quality, p.Opt.Method = float32(r.Pick(80, 90, 100)), r.Range(2, 4)
+		p.Prior, p.Second, p.WF = nil, nil, WriteFault{}
+		p.RP = ReadPlan{Mode: "whole", HasLen: true, ErrAt: -1}
+	}
 	return p
 }
 
@@ -546,7 +555,7 @@ func (propC02) Gen(seed uint64, tier string, idx int) any {
 		p.Opt = GenLossyOpts(r, 45, true)
 	}
 	if r.Pct(2) {
-		p.Img.Family = r.PickS("regions", "patch", "noise")
+		p.Img.Family = r.PickS("regions", "patch", "noise", "hole", "hole")
 		p.Img.W, p.Img.H = 16*r.Range(8, 32)-r.Intn(3), 16*r.Range(8, 32)-r.Intn(3)
 		if p.Opt.Lossless && p.Opt.Method > 4 {
 			p.Opt.Method = r.Range(0, 4)
